@@ -20,7 +20,7 @@ LEX = {
     "c_plain": b" hello", "c_empty": b"", "c_ws": b"  ", "c_kw": b" task t() {", "c_nosp": b"nospace", "c_uni": " café".encode(), "c_hash": b" a # b",
     "c_assign": b" x := \"1\"",
     "m_go": b"go test ./...", "m_tpl": b"echo {{.VAR_A}}", "m_x": b"x", "m_pipe": b'echo "a b" | wc -l', "m_adj": b"cp{{.X}}y z", "m_flag": b"rm -rf ./bin",
-    "m_env": b"GOOS=linux go build", "m_two": b"echo {{.A}} {{.B}}", "m_semi": b"cd dir; ls", "m_pct": b"date +%Y-%m-%d", "m_bs": b"grep '\\d+' x", "m_open": b"echo {{", "m_close": b"x}} y",
+    "m_env": b"GOOS=linux go build", "m_two": b"echo {{.A}} {{.B}}", "m_semi": b"cd dir; ls", "m_pct": b"date +%Y-%m-%d", "m_bs": b"grep '\\d+' x", "m_open": b"echo {{", "m_close": b"ab }} y",
     "f_join": b"join", "f_exec": b"exec",
 }
 NAMES = [k for k in LEX if k.startswith("n_")]
@@ -128,6 +128,9 @@ def expected_tree(nodes):
     return out
 
 
+LEXALL = dict(LEX)
+
+
 def render(pieces):
     b = b""
     for p in pieces:
@@ -137,9 +140,9 @@ def render(pieces):
         elif k in FIXED:
             b += FIXED[k]
         elif k == "STRING":
-            b += b'"' + LEX[i] + b'"'
+            b += b'"' + LEXALL[i] + b'"'
         else:
-            b += LEX[i]
+            b += LEXALL[i]
     return b
 
 
@@ -160,7 +163,14 @@ def spoksyntax(ctx, tier):
     for _ in range(6000 if tier == "quick" else 40000):
         structs.append({"exh": False, "lay": random_layout(rnd), "nodes": random_structure(rnd)})
     wd = ctx.sub("spoksyntax")
-    json.dump({k: len(v) for k, v in LEX.items()}, open(os.path.join(wd, "lexemes.json"), "w"))
+    lex = dict(LEX)
+    trimmed = {}
+    for k in COMS:
+        lex["t_" + k] = LEX[k].strip()
+        trimmed[k] = "t_" + k
+    LEXALL.update(lex)
+    json.dump({k: len(v) for k, v in lex.items()}, open(os.path.join(wd, "lexemes.json"), "w"))
+    json.dump(trimmed, open(os.path.join(wd, "trimmed.json"), "w"))
     json.dump(structs, open(os.path.join(wd, "structures.json"), "w"))
     r = vlib.tlc(ctx, "SpokSyntax", "INIT Init\nNEXT Next\nINVARIANTS TokensOrdered EOFAtEnd NoAccidentalDoc Emit\n", workers=8,
                  timeout=1800, workdir=wd, heap="8g", dump_trace=False)
@@ -179,7 +189,7 @@ def spoksyntax(ctx, tier):
         if toks[-1]["pos"] != len(b):
             raise Machinery("SpokSyntax denotation and rendering disagree on the text length (%d vs %d)" % (toks[-1]["pos"], len(b)))
         st = structs[sc["si"] - 1]
-        items.append((b, expected_tree(st["nodes"]), toks, "syntax-exh" if st["exh"] else "syntax-rand"))
+        items.append((b, expected_tree(st["nodes"]), {"toks": toks, "pp": None, "fmt": render(sc["fmt"]).hex()}, "syntax-exh" if st["exh"] else "syntax-rand"))
     if not items:
         raise Machinery("SpokSyntax produced no scenarios")
     log("SpokSyntax: %d scenarios (structure x layout) rendered by TLC, %d distinct states" % (len(items), r.distinct))
